@@ -1,5 +1,6 @@
 """C10  Query results do not depend on the query history (index transparency)."""
 
+import xv
 from typing import List
 
 import xandikos.icalendar as xical
@@ -69,8 +70,8 @@ def real_lemma(args, part):
     import os
     import subprocess
     p = subprocess.run(["/venv/bin/python", os.path.join(os.path.dirname(__file__), "..", "real_c10.py"),
-                        json.dumps([part] + list(args))], capture_output=True, text=True, cwd="/repo",
-                       env={"PATH": os.environ.get("PATH", "")})
+                        json.dumps([part] + list(args))], capture_output=True, text=True, cwd=xv.REPO,
+                       env={"PATH": os.environ.get("PATH", ""), "PYTHONPATH": xv.REPO})
     if p.returncode != 0:
         return (None, "real replay failed to run: " + p.stderr[-400:])
     ok, detail = json.loads(p.stdout.strip().splitlines()[-1])
